@@ -65,6 +65,9 @@ pub struct Knobs {
 
 #[derive(Debug, Clone, Serialize, Deserialize, PartialEq, Eq)]
 pub struct HScenario {
+    /// The lifecycle's on_init step asks for a dynamic lane whose completion handler records a mark.
+    #[serde(default)]
+    pub dyn_on_init: bool,
     pub knobs: Knobs,
     pub start: Prog,
     pub stop: Prog,
@@ -248,7 +251,8 @@ pub fn generate(seed: u64, _tier: Tier) -> HScenario {
             ops,
         });
     }
-    let mut sc = HScenario { knobs, start, stop, table, peers, max_steps: 80_000 };
+    let dyn_on_init = xr.chance(1, 3);
+    let mut sc = HScenario { dyn_on_init, knobs, start, stop, table, peers, max_steps: 80_000 };
     bound_cost(&mut sc);
     sc
 }
